@@ -1,4 +1,12 @@
 import InToto.Properties.C02
+#print axioms InToto.C02.never_panics
+#print axioms InToto.C02.counted_iff_authorized
+#print axioms InToto.C02.counted_sound
+#print axioms InToto.C02.authorized_always_counted
+#print axioms InToto.C02.counted_ids_distinct
+#print axioms InToto.C02.counted_order_independent
+#print axioms InToto.C02.unsigned_never_counted
+#print axioms InToto.C02.key_route_needs_valid_signature
 #print axioms InToto.C02.link_file_names
 #print axioms InToto.C02.garbage_ignored
-#print axioms InToto.C02.nothing_loaded_nothing_counted
+#print axioms InToto.C02.facts_link_formats
